@@ -12,21 +12,33 @@ structure Rgn where
   off  : Nat
   size : Nat
   fmt  : OffsetFormat
+  ty   : RelocType
   deriving DecidableEq, Repr
 
-def Reloc.rgn (r : Reloc) : Rgn := ⟨r.srcSec, r.srcOff, r.regionSize, r.fmt⟩
+def Reloc.rgn (r : Reloc) : Rgn := ⟨r.srcSec, r.srcOff, r.regionSize, r.fmt, r.type⟩
+
+/-- the value word of a relocation entry, as a reference-like region -/
+def Rgn.val (r : Rgn) : GRef := { sec := r.sec, offset := r.off + r.fmt.valueOffset, rel := 0#64, fmt := r.fmt, label := 0 }
+
+/-- the value word is as emitted: its field bits are zero (8-byte values: all zero) -/
+def RZero (secs : List Section) (r : Rgn) : Prop :=
+  ∃ old, field secs r.val = some old ∧
+    (if r.fmt.valueSize = 8 then old = 0 else BitVec.ofNat 32 old &&& fieldMask32 r.fmt = 0#32)
 
 def DRR (a b : Rgn) : Prop := a.sec ≠ b.sec ∨ a.off + a.size ≤ b.off ∨ b.off + b.size ≤ a.off
 def DRG (r : Rgn) (g : GRef) : Prop := r.sec ≠ g.sec ∨ r.off + r.size ≤ g.offset ∨ g.offset + g.fmt.valueSize ≤ r.off
 
 /-- the region lies inside its section's buffer and contains the value word -/
 def RInB (secs : List Section) (r : Rgn) : Prop :=
-  ∃ sec, secs[r.sec]? = some sec ∧ r.off + r.size ≤ sec.buf.length ∧ r.fmt.valueOffset + r.fmt.valueSize ≤ r.size ∧ 0 < r.fmt.valueSize
+  ∃ sec, secs[r.sec]? = some sec ∧ r.off + r.size ≤ sec.buf.length ∧ r.fmt.valueOffset + r.fmt.valueSize ≤ r.size ∧ 0 < r.fmt.valueSize ∧
+    ({ r.fmt with valueOffset := 0 } : OffsetFormat) ∈ formatsProved ∧ (r.ty = .x64AddressEntry → 2 ≤ r.fmt.valueOffset)
 
 structure RInv (s : State) : Prop where
   inb   : ∀ r ∈ s.relocs.map Reloc.rgn, RInB s.secs r
   disj  : (s.relocs.map Reloc.rgn).Pairwise DRR
   cross : ∀ r ∈ s.relocs.map Reloc.rgn, ∀ g ∈ s.ghost, DRG r g
+  zero  : ∀ r ∈ s.relocs.map Reloc.rgn, RZero s.secs r
+  notab : (∀ r ∈ s.relocs.map Reloc.rgn, s.addrTabSec ≠ some r.sec) ∧ s.addrTabSec ≠ some s.cur
 
 /-- buffers never shrink -/
 def LenExt (a b : List Section) : Prop :=
@@ -47,15 +59,28 @@ theorem RInB.mono {a b : List Section} (h : LenExt a b) {r : Rgn} (hr : RInB a r
   obtain ⟨s', h5, h6⟩ := h _ _ h1
   exact ⟨s', h5, by omega, h3, h4⟩
 
+theorem RInB.val {secs : List Section} {r : Rgn} (h : RInB secs r) : InB secs r.val := by
+  obtain ⟨sec, h1, h2, h3, _⟩ := h
+  exact ⟨sec, h1, by show r.off + r.fmt.valueOffset + r.fmt.valueSize ≤ _; omega⟩
+
+theorem D_val_of_DRG {secs : List Section} {r : Rgn} {g : GRef} (hb : RInB secs r) (h : DRG r g) : D r.val g := by
+  obtain ⟨_, _, _, h3, _⟩ := hb
+  unfold D DRG at *
+  show r.sec ≠ g.sec ∨ r.off + r.fmt.valueOffset + r.fmt.valueSize ≤ g.offset ∨ g.offset + g.fmt.valueSize ≤ r.off + r.fmt.valueOffset
+  omega
+
 /-- one assembling step, seen from the regions: buffers only grow; at most one new relocation region or one new logged
 reference appears, and it starts at or after the old end of the current section and lies inside the new buffer -/
 structure Grow (s s' : State) : Prop where
   len   : LenExt s.secs s'.secs
+  keep  : ∀ g, InB s.secs g → (∀ x ∈ s.ghost, D g x) → field s'.secs g = field s.secs g
   newR  : ∃ news : List Rgn, s'.relocs.map Reloc.rgn = s.relocs.map Reloc.rgn ++ news ∧ news.length ≤ 1 ∧
-            ∀ r ∈ news, r.sec = s.cur ∧ s.curOff ≤ r.off ∧ RInB s'.secs r
+            ∀ r ∈ news, r.sec = s.cur ∧ s.curOff ≤ r.off ∧ RInB s'.secs r ∧ RZero s'.secs r
   newG  : ∃ newg : List GRef, s'.ghost = s.ghost ++ newg ∧
             ∀ g ∈ newg, g.sec = s.cur ∧ s.curOff ≤ g.offset
   notBoth : s'.relocs.map Reloc.rgn = s.relocs.map Reloc.rgn ∨ s'.ghost = s.ghost
+  tabOk : s'.addrTabSec = s.addrTabSec ∨ (s.addrTabSec = none ∧ s'.addrTabSec = some s.secs.length)
+  curOk : s.addrTabSec ≠ some s.cur → s'.addrTabSec ≠ some s'.cur
 
 theorem rinv_grow {s s' : State} (h : RInv s) (hi : Inv s) (g : Grow s s') : RInv s' := by
   obtain ⟨news, hn, hlen, hnew⟩ := g.newR
@@ -65,25 +90,51 @@ theorem rinv_grow {s s' : State} (h : RInv s) (hi : Inv s) (g : Grow s s') : RIn
   -- an old region ends before the old end of its section
   have oldR : ∀ r ∈ s.relocs.map Reloc.rgn, r.sec = s.cur → r.off + r.size ≤ s.curOff := by
     intro r hr he
-    obtain ⟨sec, h1, h2, _, _⟩ := h.inb r hr
+    obtain ⟨sec, h1, h2, _⟩ := h.inb r hr
     rw [he, hsec0] at h1; cases h1; omega
   have oldG : ∀ x ∈ s.ghost, x.sec = s.cur → x.offset + x.fmt.valueSize ≤ s.curOff := by
     intro x hx he
     obtain ⟨sec, h1, h2⟩ := hi.inb x hx
     rw [he, hsec0] at h1; cases h1; omega
-  refine ⟨?_, ?_, ?_⟩
+  refine ⟨?_, ?_, ?_, ?_, ?_⟩
+  rotate_left 3
+  · -- zero
+    rw [hn]; intro r hr
+    rw [List.mem_append] at hr
+    rcases hr with hr | hr
+    · obtain ⟨old, ho, hz⟩ := h.zero r hr
+      refine ⟨old, ?_, hz⟩
+      rw [g.keep r.val (h.inb r hr).val (fun x hx => D_val_of_DRG (h.inb r hr) (h.cross r hr x hx))]
+      exact ho
+    · exact (hnew r hr).2.2.2
+  · -- notab
+    constructor
+    · rw [hn]; intro r hr
+      rw [List.mem_append] at hr
+      have hrsec : r.sec < s.secs.length := by
+        rcases hr with hr | hr
+        · obtain ⟨sec, h1, _⟩ := h.inb r hr; exact getElem?_lt h1
+        · rw [(hnew r hr).1]; exact hi.cur
+      have hold : s.addrTabSec ≠ some r.sec := by
+        rcases hr with hr | hr
+        · exact h.notab.1 r hr
+        · rw [(hnew r hr).1]; exact h.notab.2
+      rcases g.tabOk with e | ⟨_, e⟩
+      · rw [e]; exact hold
+      · rw [e]; intro hx; have := Option.some.inj hx; omega
+    · exact g.curOk h.notab.2
   · rw [hn]; intro r hr
     rw [List.mem_append] at hr
     rcases hr with hr | hr
     · exact (h.inb r hr).mono g.len
-    · exact (hnew r hr).2.2
+    · exact (hnew r hr).2.2.1
   · rw [hn, List.pairwise_append]
     refine ⟨h.disj, ?_, ?_⟩
     · match news, hlen with
       | [], _ => simp
       | [x], _ => simp
     · intro a ha b hb
-      obtain ⟨hb1, hb2, _⟩ := hnew b hb
+      obtain ⟨hb1, hb2, _, _⟩ := hnew b hb
       by_cases hs : a.sec = b.sec
       · right; left
         have := oldR a ha (hs.trans hb1)
@@ -102,7 +153,7 @@ theorem rinv_grow {s s' : State} (h : RInv s) (hi : Inv s) (g : Grow s s') : RIn
         omega
       · exact .inl hs
     · -- new region, old reference
-      obtain ⟨hr1, hr2, _⟩ := hnew r hr
+      obtain ⟨hr1, hr2, _, _⟩ := hnew r hr
       by_cases hs : r.sec = x.sec
       · right; right
         have := oldG x hx (hs.symm.trans hr1)
